@@ -86,6 +86,14 @@ impl<F: TryFuture> TryJoinAll<F> {
     }
 }
 
+impl<F: TryFuture> Drop for TryJoinAll<F> {
+    fn drop(&mut self) {
+        // Outputs written so far would otherwise leak when the combinator is dropped before it
+        // completes: `MaybeUninit` never drops its content.
+        self.release(None);
+    }
+}
+
 impl<F: TryFuture> Future for TryJoinAll<F> {
     type Output = Result<Vec<F::Ok>, F::Err>;
 
